@@ -36,9 +36,13 @@ func genC17() *rapid.Generator[C17Case] {
 		ctx := bt.ProgCtx{Tables: c14Tables[:2], Fams: bt.AllFams, Keys: c14Keys, Quals: c14Quals,
 			InvalidPct: rapid.SampledFrom([]int{0, 3}).Draw(t, "invalidPct"), Admin: 2, Reads: 10, Filters: true,
 			FilterOpts: bt.FilterOpts{Fams: bt.AllFams, Keys: c14Keys, Quals: c14Quals, Vals: c05Vals, InvalidPct: 5}}
-		fams := []bt.FamDef{{Name: "f"}, {Name: "g"}, {Name: "h"}}
+		fams := []bt.FamDef{{Name: "f", GC: &bt.GC{K: "maxv", N: 1}}, {Name: "g", GC: &bt.GC{K: "maxage", Sec: 3600}}, {Name: "h"}}
 		first := []bt.Op{{K: "CreateTable", Table: "t", Fams: fams}, {K: "CreateTable", Table: "t2", Fams: fams}}
 		step := rapid.Custom(func(t *rapid.T) bt.Op {
+			if rapid.IntRange(0, 24).Draw(t, "gc") == 0 {
+				// a forced garbage-collection pass (same clock on all three servers)
+				return bt.Op{K: "GC", Force: true, Clock: bt.I64(rapid.SampledFrom([]int64{5000, 10_000_000_000}).Draw(t, "gcclock"))}
+			}
 			op := bt.GenOp(ctx).Draw(t, "op")
 			if op.K == "ReadRows" && rapid.IntRange(0, 2).Draw(t, "partial") == 0 {
 				f := partialFail(rapid.SampledFrom(c14Keys).Draw(t, "failkey"), rapid.IntRange(0, 3).Draw(t, "failkind"))
